@@ -533,12 +533,14 @@ def check_reductions(rec):
                   scale=sc * max(1.0, abs(c)))
             close(g2, c * np.sum(np.conj(fa) * fb), "vdot_linear_second", tol=1e-12, scale=sc * max(1.0, abs(c)))
         else:
-            if fn == "dot":
-                got = jft.dot(A, B)
-            elif fn == "matmul_op":
-                got = jft.Vector(a) @ jft.Vector(b)
-            else:
-                got = jft.Vector(a).dot(jft.Vector(b))
+            import warnings
+            with warnings.catch_warnings(record=True):     # jft.dot announces its deprecation on every call
+                if fn == "dot":
+                    got = jft.dot(A, B)
+                elif fn == "matmul_op":
+                    got = jft.Vector(a) @ jft.Vector(b)
+                else:
+                    got = jft.Vector(a).dot(jft.Vector(b))
             got = _scalar_result(got, fn)
             close(got, np.sum(fa * fb), "dot_no_conjugate", tol=1e-12, scale=sc)
         nt = nleaves(spec) >= 2 and any(f[0] == "c" for f in rec["fa"])
@@ -969,7 +971,7 @@ def forest_recipes(tier):
                      wrap_b=draw(st.booleans()), default_kw=draw(st.booleans()))
             return r
         if fn == "stack_unstack":
-            spec = draw(structs(py_scalars=False))
+            spec = draw(structs(py_scalars=False, shapes=SHAPES if draw(st.booleans()) else [s_ for s_ in SHAPES if s_]))
             mind = min(len(s["shape"]) for s in leaf_specs(spec))
             r["axis"] = draw(st.sampled_from([0, 0] + list(range(-(mind + 1), mind + 1))))
             r["axis_kw"] = draw(st.booleans())
